@@ -353,6 +353,11 @@ def handle (st : DrvState) (op : String) (a : List Int) : DrvState × String :=
       | [] => (st, "bad-args")
     else if kind == 2 then (st, bitStr (Spec.Tx.packetFrameBits (rest.map fun x => x != 0)))
     else (st, bitStr (Spec.Tx.bertFrameBits (rest.map fun x => x != 0)))
+  | "mod_bert", state :: n :: _ =>
+    -- model of m17-mod's BERT loop (make_bert_frame + interleave + randomize + output_bitstream), same reply as harness/drv_mod.cpp
+    let (bytes, g) := (List.range n.toNat).foldl (fun (acc : List Nat × Nat) _ =>
+      (acc.1 ++ TxMod.bertFrame ((Prbs.genBits 197 acc.2).map fun b => if b then 1 else 0), Prbs.genState 197 acc.2)) ([], state.toNat)
+    (st, joinNats (bytes ++ [g]))
   | "spec_bert", state :: n :: _ =>
     let (bytes, g) := (List.range n.toNat).foldl (fun (acc : List Nat × Nat) _ =>
       (acc.1 ++ Spec.Tx.bertFrame (Prbs.genBits 197 acc.2), Prbs.genState 197 acc.2)) ([], state.toNat)
